@@ -106,6 +106,21 @@ def cases(tier, seed):
         rng = gen.rng_for(seed, "C08", "addr", i)
         yield {"k": "addr", "ctx": R.rand_ctx(rng, 3 if i % 4 else 2)}
     yield {"k": "addr", "ctx": {}}
+    # beyond the small sizes: items 5..300 levels deep, addressed in every notation
+    for i, depth in enumerate([5, 17, 33, 63, 64, 65, 66, 100, 129, 200, 300]):
+        rng = gen.rng_for(seed, "C08", "deep", i)
+        path = [rng.choice(R.KEYS) for _ in range(depth)]
+        leaf = rng.choice([1, "s", None, [1], {}])
+        ctx = leaf
+        for j, k in enumerate(reversed(path)):
+            ctx = {k: ctx}
+            if rng.random() < 0.3:
+                other = [x for x in R.KEYS if x != k]
+                ctx[rng.choice(other)] = rng.choice([0, "t", {"a": 1}])
+        wrong = list(path)
+        wrong[depth // 2] = [x for x in R.KEYS if x != path[depth // 2]][0]
+        paths = [path, path[:depth // 2], path[:-1], path + ["a"], wrong, path[:3]]
+        yield {"k": "addr", "ctx": ctx, "paths": paths, "deep": depth}
     yield {"k": "addr_dotted"}
     for i in range(6 if tier == "quick" else 60):
         rng = gen.rng_for(seed, "C08", "missing", i)
@@ -277,7 +292,8 @@ def run_addr(r, obs, ctl):
     ctx = R.cp(r["ctx"])
     snap = repr(ctx)
     DEF = object()
-    paths = R.all_paths(4) + R.extra_paths(ctx)
+    paths = [tuple(q) for q in r["paths"]] if r.get("paths") else \
+        R.all_paths(4) + R.extra_paths(ctx)
     seen_shapes = set()
     for p in paths:
         exp = R.get(ctx, p)
